@@ -105,10 +105,17 @@ class ParCons(RankAggAlgorithm, PairwiseBasedAlgorithm):
                 # creation of a new Dataset representing the sub-problem. The rankings that rank no element of the
                 # sub-problem are kept (as empty rankings): they count in the cost of the pairs of the sub-problem
                 sub_problem = dataset.sub_problem_from_elements(set_current_elements, keep_empty_rankings=True)
+                # the elements of the sub-problem may have another type than in the dataset (names that are all
+                # integer-like become int in the sub-problem): the consensus of the sub-problem is written back with
+                # the elements of the dataset
+                elements_by_name = {str(element): element for element in set_current_elements}
+                # a name such as "007" is read back as 7 from a sub-problem of int elements
+                elements_by_name.update({str(int(name)): element for name, element in list(elements_by_name.items())
+                                         if name.isdecimal() and str(int(name)) not in elements_by_name})
                 if len(scc_i) > self._bound_for_exact:
                     cons_ext = self._auxiliary_alg.compute_consensus_rankings(
                         sub_problem, scoring_scheme, True).consensus_rankings[0]
-                    res.extend(cons_ext)
+                    res.extend({elements_by_name[str(element)] for element in bucket} for bucket in cons_ext)
                     optimal = False
                 else:
                     # the free solver is used if cplex is not installed
@@ -118,7 +125,7 @@ class ParCons(RankAggAlgorithm, PairwiseBasedAlgorithm):
                         exact_alg = ExactAlgorithmCplexForPaperOptim1()
                     cons_ext = exact_alg.compute_consensus_rankings(
                         sub_problem, scoring_scheme, True).consensus_rankings[0]
-                    res.extend(cons_ext)
+                    res.extend({elements_by_name[str(element)] for element in bucket} for bucket in cons_ext)
 
         hash_information = {
             ConsensusFeature.ASSOCIATED_ALGORITHM: self.get_full_name(),
